@@ -150,6 +150,10 @@ class Encoder:
           stack.pop()
     return None
 
+  def reads_lock_state(self, ins):
+    R, _ = self.resources(ins)
+    return ins['op'] == 'set' and any(r[0] == 'L' for r in R)
+
   def single_racy(self, ins):
     R, Wr = self.resources(ins)
     return len({self.canon(r) for r in (R | Wr) if r[0] not in ('L', 'C', 'T')}) <= 1
@@ -271,6 +275,8 @@ class Encoder:
             continue                # re-entrant acquire of a lock we certainly hold
           pps.add(pc)
         elif op in ('wake', 'tryacq', 'join', 'tstart', 'halt', 'next'):
+          pps.add(pc)
+        elif self.reads_lock_state(ins):
           pps.add(pc)
         elif (tid, pc) in self.racy_at:
           # the .val / .cnt component of a reference read/write belongs to the same atomic python operation
@@ -541,9 +547,15 @@ class Encoder:
       l = ins['lock']
       own, cnt = st[('own', l)], st[('cnt', l)]
       # releasing a lock that is not held raises RuntimeError in python; modelled as thread death marker
-      st[('own', l)] = z3.If(cnt == 1, BV(255), own)
-      st[('cnt', l)] = z3.If(cnt == 0, cnt, cnt - 1)
-      st[('died', tid)] = z3.If(z3.Or(cnt == 0, own != tid), BV(2), st[('died', tid)])
+      if self.s.locks[l] == 'lock':
+        # threading.Lock is not owned: any thread may release it; releasing an unlocked lock raises RuntimeError
+        st[('own', l)] = BV(255)
+        st[('cnt', l)] = BV(0)
+        st[('died', tid)] = z3.If(cnt == 0, BV(2), st[('died', tid)])
+      else:
+        st[('own', l)] = z3.If(cnt == 1, BV(255), own)
+        st[('cnt', l)] = z3.If(cnt == 0, cnt, cnt - 1)
+        st[('died', tid)] = z3.If(z3.Or(cnt == 0, own != tid), BV(2), st[('died', tid)])
       return [(None, st, pc + 1)]
     if op == 'wait':
       c, l = ins['cond'], ins['lock']
@@ -836,7 +848,7 @@ def assert_bv_only(e, seen=None):
     stack.extend(x.children())
 
 
-def bmc(sysm: System, bad_final=None, bad_any=None, depths=(40, 80, 120, 160), timeout_s=1200, want_trace_of_ok=False):
+def bmc(sysm: System, bad_final=None, bad_any=None, depths=(40, 80, 120, 160), timeout_s=1200, want_trace_of_ok=False, bad_stuck=None):
   """bad_final(enc, st) / bad_any(enc, st): z3 Bool over a state. Returns Result."""
   enc = Encoder(sysm)
   enc._ppset = [set(p) for p in enc.pp]
@@ -918,8 +930,15 @@ def bmc(sysm: System, bad_final=None, bad_any=None, depths=(40, 80, 120, 160), t
     enK = [enabled(i, st, z3.BoolVal(True)) for i in range(n)]
     nobodyK = z3.And(*[z3.Not(e) for e in enK])
     ah = all_halted(st)
-    bads = [z3.And(nobodyK, z3.Not(ah))]
-    names = ['deadlock']
+    if bad_stuck is None:
+      bads = [z3.And(nobodyK, z3.Not(ah))]
+      names = ['deadlock']
+    else:
+      # termination is not part of the claim: a state in which nobody can move is terminal and only has to satisfy bad_stuck's negation
+      bs = bad_stuck(enc, st)
+      assert_bv_only(bs)
+      bads = [z3.And(nobodyK, z3.Not(ah), bs)]
+      names = ['bad_stuck']
     if bad_final is not None:
       bf = bad_final(enc, st)
       assert_bv_only(bf)
